@@ -225,6 +225,16 @@ Example C08_step_hypotheses_inhabited :
   /\ pieces_of 0 (gstep g (Complete 0 15)) = [].
 Proof. vm_compute. repeat split; try reflexivity. - left. reflexivity. - intros [H|[]]. discriminate. Qed.
 
+(* clause 1 of the decision procedure compares the covers before and after a filing only at the
+   end points e and e+1 of the ranges involved; that decides equality at EVERY offset, for both
+   readings: an implementation observation passing the test satisfies the statement of
+   C08_add_cover itself *)
+Theorem C08_cover_test_decides : forall old new f t,
+  cover_add_ok old new f t = true ->
+  forall x, cov new x = cov old x || in_req x (f, t)
+            /\ cov_oc new x = cov_oc old x || in_req_oc x (f, t).
+Proof. exact cover_add_ok_complete. Qed.
+
 (* the decision procedure evaluated on the implementation's observations accepts the model on
    EVERY history *)
 Theorem C08_spec_sound : forall i, spec_c08 i (model_obs i) = [].
@@ -247,4 +257,5 @@ Print Assumptions C08_never_lost.
 Print Assumptions C08_live_until_completed_or_cancelled.
 Print Assumptions C08_nothing_invented.
 Print Assumptions C08_head_is_oldest.
+Print Assumptions C08_cover_test_decides.
 Print Assumptions C08_spec_sound.
